@@ -442,3 +442,42 @@ M['C12'] = [
     dict(id='c12-benign-front-other-test', kind='benign', edits=[
         ('src/dlist.c', 'void * cstl_dlist_front(struct cstl_dlist * const l)\n{\n    if (l->size > 0) {\n        return __cstl_dlist_element(l, l->h.n);\n    }\n    return NULL;', 'void * cstl_dlist_front(struct cstl_dlist * const l)\n{\n    if (l->h.n == &l->h) {\n        return NULL;\n    }\n    return __cstl_dlist_element(l, l->h.n);')]),
 ]
+
+# ------------------------------------------------------------------------------------------- C15
+M['C15'] = [
+    dict(id='c15-slist-clear-reads-next-after-callback', kind='fault', rule='K1', edits=[
+        ('src/slist.c', '        struct cstl_slist_node * const n = h->n;\n        clr(__cstl_slist_element(sl, h), NULL);\n        h = n;', '        clr(__cstl_slist_element(sl, h), NULL);\n        h = h->n;')]),
+    dict(id='c15-dlist-clear-callback-before-unlink', kind='fault', rule='K1', edits=[
+        ('src/dlist.c', '    while (l->size > 0) {\n        clr(__cstl_dlist_erase(l, l->h.n), NULL);\n    }', '    while (l->size > 0) {\n        struct cstl_dlist_node * const n = l->h.n;\n        clr(__cstl_dlist_element(l, n), NULL);\n        __cstl_dlist_erase(l, n);\n    }')]),
+    dict(id='c15-walker-rereads-right-child', kind='fault', rule='K1', edits=[
+        ('src/bintree.c', '    if (res == 0 && rn != NULL) {\n        /* visit the subtree rooted at the right child */\n        res = __cstl_bintree_foreach(rn, visit, priv, l, r);\n    }\n\n    if (res == 0 && leaf == 0) {',
+         '    if (res == 0 && rn != NULL) {\n        /* visit the subtree rooted at the right child */\n        res = __cstl_bintree_foreach(rn, visit, priv, l, r);\n    }\n\n    if (res == 0 && leaf != 0 && *r(bn) != NULL) {\n        res = 1;\n    }\n\n    if (res == 0 && leaf == 0) {')]),
+    dict(id='c15-walker-children-read-late', kind='fault', rule='K1', edits=[
+        ('src/bintree.c', '    if (res == 0 && rn != NULL) {\n        /* visit the subtree rooted at the right child */\n        res = __cstl_bintree_foreach(rn, visit, priv, l, r);', '    if (res == 0 && *r(bn) != NULL) {\n        /* visit the subtree rooted at the right child */\n        res = __cstl_bintree_foreach(*r(bn), visit, priv, l, r);')]),
+    dict(id='c15-adapter-calls-on-mid', kind='fault', rule='K2', edits=[
+        ('src/bintree.c', '    if (order == CSTL_BINTREE_VISIT_ORDER_POST\n        || order == CSTL_BINTREE_VISIT_ORDER_LEAF) {', '    if (order == CSTL_BINTREE_VISIT_ORDER_MID\n        || order == CSTL_BINTREE_VISIT_ORDER_LEAF) {')]),
+    dict(id='c15-adapter-skips-leaf', kind='fault', rule='K2', edits=[
+        ('src/bintree.c', '    if (order == CSTL_BINTREE_VISIT_ORDER_POST\n        || order == CSTL_BINTREE_VISIT_ORDER_LEAF) {', '    if (order == CSTL_BINTREE_VISIT_ORDER_POST) {')]),
+    dict(id='c15-walker-leaf-also-post', kind='fault', rule='K2', edits=[
+        ('src/bintree.c', '    if (res == 0 && leaf == 0) {\n        /* last visit to the current node (if it\'s a non-leaf) */', '    if (res == 0) {\n        /* last visit to the current node (if it\'s a non-leaf) */')]),
+    dict(id='c15-walker-skips-left-subtree-when-right-missing', kind='fault', rule='K2', edits=[
+        ('src/bintree.c', '    if (res == 0 && ln != NULL) {\n        /* visit the subtree rooted at the left child */', '    if (res == 0 && ln != NULL && rn != NULL) {\n        /* visit the subtree rooted at the left child */')]),
+    dict(id='c15-tree-clear-keeps-size', kind='fault', rule='K3', edits=[
+        ('src/bintree.c', '        bt->root  = NULL;\n        bt->size = 0;', '        bt->root  = NULL;')]),
+    dict(id='c15-slist-clear-no-reinit', kind='fault', rule='K3', edits=[
+        ('src/slist.c', '        h = n;\n    }\n\n    cstl_slist_init(sl, sl->off);', '        h = n;\n    }\n\n    sl->h.n = NULL;\n    sl->count = 0;')]),
+    dict(id='c15-map-clear-frees-before-callback', kind='fault', rule='K1', edits=[
+        ('src/map.c', '        cstl_map_iterator_init(cmc->map, &i, node);\n        i._ = NULL;\n\n        cmc->clr(&i, cmc->priv);\n    }\n\n    cstl_map_node_free(node);', '        cstl_map_iterator_init(cmc->map, &i, node);\n        i._ = NULL;\n\n        cstl_map_node_free(node);\n        cmc->clr(&i, cmc->priv);\n        return;\n    }\n\n    cstl_map_node_free(node);')]),
+    dict(id='c15-map-clear-leaks-when-no-callback', kind='fault', rule='K1', edits=[
+        ('src/map.c', '        cmc->clr(&i, cmc->priv);\n    }\n\n    cstl_map_node_free(node);', '        cmc->clr(&i, cmc->priv);\n        cstl_map_node_free(node);\n    }')]),
+    dict(id='c15-map-clear-attached-iterator', kind='fault', rule='K1', edits=[
+        ('src/map.c', '        cstl_map_iterator_init(cmc->map, &i, node);\n        i._ = NULL;\n', '        cstl_map_iterator_init(cmc->map, &i, node);\n')]),
+    dict(id='c15-benign-slist-clear-for-loop', kind='benign', edits=[
+        ('src/slist.c', '    h = sl->h.n;\n    while (h != NULL) {\n        struct cstl_slist_node * const n = h->n;\n        clr(__cstl_slist_element(sl, h), NULL);\n        h = n;\n    }',
+         '    struct cstl_slist_node * n;\n    for (h = sl->h.n; h != NULL; h = n) {\n        n = h->n;\n        clr(__cstl_slist_element(sl, h), NULL);\n    }')]),
+    dict(id='c15-benign-adapter-switch', kind='benign', edits=[
+        ('src/bintree.c', '    if (order == CSTL_BINTREE_VISIT_ORDER_POST\n        || order == CSTL_BINTREE_VISIT_ORDER_LEAF) {\n        struct cstl_bintree_clear_priv * const bcp = p;',
+         '    if (order != CSTL_BINTREE_VISIT_ORDER_PRE\n        && order != CSTL_BINTREE_VISIT_ORDER_MID) {\n        struct cstl_bintree_clear_priv * const bcp = p;')]),
+    dict(id='c15-benign-tree-clear-unconditional-reset', kind='benign', edits=[
+        ('src/bintree.c', '        bt->root  = NULL;\n        bt->size = 0;\n    }\n}', '    }\n    bt->root = NULL;\n    bt->size = 0;\n}')]),
+]
